@@ -31,17 +31,6 @@ Proof.
   vm_compute in H. discriminate H.
 Qed.
 
-(* a scan left waiting for a block and never resumed: its matches are still there for the next scan,
-   and its notebook is lost *)
-Lemma history_independent_refuted_abandoned_proof :
-  exists h i, st_alive (run_state [] toy_oracle (fresh []) h) = true /\
-    snd (step [] toy_oracle (run_state [] toy_oracle (fresh []) h) (Scan i [] None)) <>
-    snd (step [] toy_oracle (run_state [] toy_oracle (fresh []) (filter is_setting h)) (Scan i [] None)) /\
-    st_leaked (fst (step [] toy_oracle (run_state [] toy_oracle (fresh []) h) (Scan i [] None))) = 1%nat.
-Proof.
-  exists [Scan inp_blocks [] (Some 1%nat)], inp_text. vm_compute. conj; congruence.
-Qed.
-
 (* an external variable that has the name of a module is removed by yr_modules_unload_all *)
 Definition toy_oracle_x (flags timeout : N) (i : input) (o : objs) (ep : option N) (r : residue) : natural :=
   {| n_msgs := [(KRule, match lookup 7%N o with Some (PI z) => Z.to_N z | _ => 99%N end)];
@@ -50,11 +39,6 @@ Lemma history_independent_refuted_module_name_proof : ~ history_independent_stat
 Proof.
   intros H. specialize (H [(7%N, PI 1)] [Scan inp_text [] None] inp_text [] None eq_refl).
   vm_compute in H. discriminate H.
-Qed.
-
-Lemma destroy_no_leak_refuted_proof : ~ destroy_no_leak_statement [] toy_oracle.
-Proof.
-  intros H. specialize (H [] [Scan inp_blocks [] (Some 1%nat)] eq_refl). vm_compute in H. discriminate H.
 Qed.
 
 Lemma op_eq_Destroy_dec (o : op) : {o = Destroy} + {o <> Destroy}.
@@ -137,7 +121,7 @@ Proof. unfold ScannerHist.run_state. apply fold_left_app. Qed.
 Lemma hist_ok_app s a b : hist_ok s (a ++ b) = true -> hist_ok s a = true /\ hist_ok (run_state s a) b = true.
 Proof.
   revert s. induction a as [|o t IH]; intros s H; cbn in *; auto.
-  destruct (match o with Scan _ _ _ => _ | _ => _ end); try discriminate.
+  destruct (match o with Define _ _ => _ | _ => _ end); try discriminate.
   apply IH in H. exact H.
 Qed.
 
@@ -160,12 +144,9 @@ Proof.
 Qed.
 
 Definition op_ok (s : sstate) (o : op) : bool :=
-  match o, st_susp s with
-  | Scan _ _ _, Some _ => false
-  | Destroy, Some _ => false
-  | Resume _, None => false
-  | Define x d, _ => match snd (scanner_define (st_objs s) x d) with RCrash => false | _ => true end
-  | _, _ => true
+  match o with
+  | Define x d => match snd (scanner_define (st_objs s) x d) with RCrash => false | _ => true end
+  | _ => true
   end.
 
 Lemma hist_ok_cons s o t : hist_ok s (o :: t) = (if op_ok s o then hist_ok (fst (step s o)) t else false).
@@ -175,6 +156,15 @@ Lemma residue_idle s : inv s -> st_susp s = None -> residue_of s = no_residue.
 Proof.
   intros I H. destruct (inv_idle _ I H) as (A & B & C & D).
   unfold residue_of, no_residue. now rewrite A, B, (inv_rule_flags _ I), (inv_ns _ I), (inv_disabled _ I).
+Qed.
+
+(* what a new scan starts from: nothing of another scan *)
+Lemma scan_residue_clean s : inv s ->
+  match st_notebook s with Some _ => no_residue | None => residue_of s end = no_residue.
+Proof.
+  intros I. destruct (st_susp s) as [su|] eqn:SU.
+  - destruct (inv_wait _ I su SU) as (_ & _ & NB). now rewrite NB.
+  - destruct (inv_idle _ I SU) as (_ & _ & _ & NB). rewrite NB. now apply residue_idle.
 Qed.
 
 (* one step keeps the invariant and the settings relation; a Destroy kills the scanner *)
@@ -189,9 +179,8 @@ Proof.
   pose proof (inv_alive _ I) as AL. pose proof (inv_alive _ I') as AL'.
   destruct o as [i sc nr | nr | f | t | t | x d | ]; try congruence; cbn [is_setting].
   - (* Scan *)
-    unfold op_ok in OK. destruct (st_susp s) eqn:SU; try discriminate.
     unfold ScannerHist.step. rewrite AL. cbn [negb].
-    destruct (inv_idle _ I SU) as (M1 & M2 & M3 & M4). rewrite M4, (inv_leaked _ I), (residue_idle _ I SU).
+    rewrite (scan_residue_clean _ I), (inv_leaked _ I).
     assert (FIN : inv (fst (finish s i sc no_residue 0%nat)) /\ sim (fst (finish s i sc no_residue 0%nat)) s' /\
                   pristine s' /\ no_module_names modnames (st_objs (fst (finish s i sc no_residue 0%nat))) = true).
     { destruct (finish_inv s i sc I NM) as (A & B & C & D & E).
@@ -204,7 +193,8 @@ Proof.
       intros su [= <-]. cbn. auto.
     + unfold sim, pristine; conj; cbn; auto.
   - (* Resume *)
-    unfold op_ok in OK. destruct (st_susp s) as [su|] eqn:SU; try discriminate.
+    destruct (st_susp s) as [su|] eqn:SU.
+    2: { unfold ScannerHist.step. rewrite AL, SU. cbn [negb fst]. unfold sim, pristine; conj; auto. }
     unfold ScannerHist.step. rewrite AL, SU. cbn [negb].
     destruct (inv_wait _ I su SU) as (M1 & M2 & M3).
     rewrite M1, M2, (inv_rule_flags _ I), (inv_ns _ I), (inv_disabled _ I), (inv_leaked _ I). cbn [removelast].
@@ -293,7 +283,8 @@ Qed.
 Lemma scan_trace s1 s2 i sc nr :
   st_alive s1 = true -> st_alive s2 = true ->
   st_ep s1 = st_ep s2 -> st_flags s1 = st_flags s2 -> st_timeout s1 = st_timeout s2 -> st_objs s1 = st_objs s2 ->
-  residue_of s1 = residue_of s2 ->
+  match st_notebook s1 with Some _ => no_residue | None => residue_of s1 end =
+  match st_notebook s2 with Some _ => no_residue | None => residue_of s2 end ->
   snd (step s1 (Scan i sc nr)) = snd (step s2 (Scan i sc nr)).
 Proof.
   intros A1 A2 E F T O R. unfold ScannerHist.step. rewrite A1, A2. cbn [negb].
@@ -308,8 +299,8 @@ Qed.
 Lemma with_ep_same s : with_ep s (st_ep s) = s.
 Proof. destruct s; reflexivity. Qed.
 
-(* history independence, excluding exactly the entry point: after any history without an abandoned
-   suspension, and with no external variable named like a module, a scan reports what it reports on
+(* history independence, excluding exactly the entry point: after any history (aborted, failed,
+   timed-out, suspended, resumed or abandoned scans), with no external variable named like a module, a scan reports what it reports on
    a freshly created scanner with the same settings whose entry_point field holds the stale value *)
 Theorem history_independent_partial_proof : forall o h i sc nr,
   no_module_names modnames o = true ->
@@ -323,13 +314,12 @@ Proof.
   assert (P0 : pristine (fresh o)) by (unfold pristine; auto using inv_fresh).
   destruct (run_inv modnames oracle h (fresh o) (fresh o) (inv_fresh o) (conj eq_refl (conj eq_refl eq_refl)) P0 NM OK1 AL)
     as (I & (SF & ST & SO) & (I' & PS & PE)).
-  assert (SU : st_susp (run_state (fresh o) h) = None).
-  { cbn in OK2. destruct (st_susp (run_state (fresh o) h)); [discriminate|reflexivity]. }
   apply scan_trace; auto.
   - cbn. apply (inv_alive _ I').
-  - rewrite (residue_idle _ I SU).
+  - rewrite (scan_residue_clean _ I).
+    change (st_notebook (with_ep ?s ?e)) with (st_notebook s).
     change (residue_of (with_ep ?s ?e)) with (residue_of s).
-    now rewrite (residue_idle _ I' PS).
+    now rewrite (scan_residue_clean _ I').
 Qed.
 
 (* ... hence full independence whenever no entry point was ever recorded (no PE/ELF scanned before) *)
@@ -366,7 +356,7 @@ Proof.
   conj; auto; apply I.
 Qed.
 
-(* destroy after any prefix (not in the middle of a suspended scan) releases everything *)
+(* destroy after any prefix -- also in the middle of a suspended scan -- releases everything *)
 Theorem destroy_no_leak_partial_proof : forall o h,
   no_module_names modnames o = true ->
   hist_ok (fresh o) (h ++ [Destroy]) = true ->
@@ -378,10 +368,7 @@ Proof.
   assert (P0 : pristine (fresh o)) by (unfold pristine; auto using inv_fresh).
   destruct (run_inv modnames oracle h (fresh o) (fresh o) (inv_fresh o) (conj eq_refl (conj eq_refl eq_refl)) P0 NM OK1 AL)
     as (I & _ & _).
-  assert (SU : st_susp (run_state (fresh o) h) = None).
-  { cbn in OK2. destruct (st_susp (run_state (fresh o) h)); [discriminate|reflexivity]. }
-  destruct (inv_idle _ I SU) as (_ & _ & _ & NB).
-  unfold ScannerHist.step. rewrite AL. cbn [negb fst]. rewrite NB, (inv_leaked _ I). reflexivity.
+  unfold ScannerHist.step. rewrite AL. cbn [negb fst]. unfold heap_live. cbn. apply (inv_leaked _ I).
 Qed.
 
 End Theorems.
